@@ -86,6 +86,7 @@ func (w *World) Close() {
 			s.EP.Close()
 		}
 	}
+	w.Env.Close()
 }
 
 // Inject delivers one frame (patching relative sequence numbers).
